@@ -3,6 +3,7 @@ import contextlib
 import io
 import os
 import shutil
+import sys
 from pathlib import Path
 
 import numpy as np
@@ -62,13 +63,17 @@ class Loader:
 
     def call(self, a, d, cache=None):
         from gemdat import Trajectory
-        kw = self.kwargs(a)
-        if cache is not None:
-            kw['cache'] = cache
-        with contextlib.redirect_stdout(io.StringIO()):
-            if self.kind == 'vasprun':
-                return Trajectory.from_vasprun(d / 'vasprun.xml', **kw)
-            return Trajectory.from_lammps(coords_file=d / 'traj.xyz', data_file=d / 'lammps.data', **kw)
+        _beat(b'B')
+        try:
+            kw = self.kwargs(a)
+            if cache is not None:
+                kw['cache'] = cache
+            with contextlib.redirect_stdout(io.StringIO()):
+                if self.kind == 'vasprun':
+                    return Trajectory.from_vasprun(d / 'vasprun.xml', **kw)
+                return Trajectory.from_lammps(coords_file=d / 'traj.xyz', data_file=d / 'lammps.data', **kw)
+        finally:
+            _beat(b'E')
 
 
 def same(t1, t2):
@@ -93,6 +98,42 @@ def same(t1, t2):
     return None
 
 
+def _read_back_in_child(f, expected, budget=20):
+    """from_cache(f) compared with `expected`, in a forked child under a wall-clock budget: a cache file that is not what a fresh parse
+    writes may be anything (a damaged prefix with a pickle appended ...), and unpickling anything may take for ever inside C code where
+    no Python-level timeout reaches.  Returns None (equal) or the reason."""
+    import os
+    import time
+    from gemdat import Trajectory
+    r, w = os.pipe()
+    pid = os.fork()
+    if pid == 0:
+        try:
+            os.close(r)
+            try:
+                why = same(Trajectory.from_cache(f), expected)
+            except BaseException as e:          # noqa
+                why = 'cache-unreadable:' + type(e).__name__
+            os.write(w, (why or 'OK').encode()[:200])
+        finally:
+            os._exit(0)
+    os.close(w)
+    t0 = time.time()
+    while True:
+        done, _ = os.waitpid(pid, os.WNOHANG)
+        if done:
+            break
+        if time.time() - t0 > budget:
+            os.kill(pid, 9)
+            os.waitpid(pid, 0)
+            os.close(r)
+            return 'cache-read-does-not-terminate'
+        time.sleep(0.005)
+    out = os.read(r, 300).decode(errors='replace')
+    os.close(r)
+    return None if out == 'OK' else (out or 'cache-unreadable:child-died')
+
+
 def check_call(rep, ld, a, d, ctx):
     """Call the loader with argument set a in directory d; result must equal the fresh parse, cache must be complete."""
     from gemdat import Trajectory
@@ -107,12 +148,19 @@ def check_call(rep, ld, a, d, ctx):
         return
     f = d / ld.cname[a]
     try:
-        back = Trajectory.from_cache(f)
-        why = same(back, ld.fresh[a])
-    except Exception as e:
-        why = 'cache-unreadable:' + type(e).__name__
+        data = f.read_bytes()
+    except OSError as e:
+        data = None
+        why = 'cache-missing:' + type(e).__name__
+    if data is not None:
+        if data == ld.image[a]:
+            why = None                       # byte-identical to the cache a fresh parse writes
+        else:
+            why = _read_back_in_child(f, ld.fresh[a])
     if why:
         rep.violation({'kind': 'fault', 'clause': 'cache-not-complete-after-return:' + why, 'loader': ld.kind, 'args': a, 'context': ctx})
+        if why == 'cache-read-does-not-terminate' or len(rep.violations) >= 25:
+            raise _EarlyStop()          # the verdict is in; every further case would cost the full read-back budget again
 
 
 def replay(rep, ld, hist, L, workdir):
@@ -141,7 +189,78 @@ def replay(rep, ld, hist, L, workdir):
             raise core.Machinery(f'unknown event {ev}')
 
 
+_HEARTBEAT = [None]
+
+
+class _EarlyStop(Exception):
+    pass
+
+
+def _run_guarded(rep):
+    try:
+        _run(rep)
+    except _EarlyStop:
+        rep.evaluations += 1
+        rep.nontrivial += 1
+
+
+def _beat(mark=b'B'):
+    """b'B': a loader / cache-read step begins; b'E': it has ended.  The watchdog only times the span between the two."""
+    if _HEARTBEAT[0] is not None:
+        try:
+            os.write(_HEARTBEAT[0], mark)
+        except OSError:
+            pass
+
+
 def run(rep):
+    """The body runs in a forked worker that reports progress before every loader call; this process only watches.  Unpickling a
+    damaged cache happens in C code that no Python-level timeout can interrupt: if a single step (a loader call on a file of a few
+    kilobytes, normally milliseconds) makes no progress for STALL seconds, the worker is killed and the run ends with a verdict
+    instead of hanging."""
+    import select
+    import time
+    STALL = 180
+    r, w = os.pipe()
+    sys.stdout.flush()
+    sys.stderr.flush()
+    pid = os.fork()
+    if pid == 0:
+        os.close(r)
+        _HEARTBEAT[0] = w
+        code = 2
+        try:
+            code = core.run_and_finish(_run_guarded, rep)
+            sys.stdout.flush()
+            sys.stderr.flush()
+        finally:
+            os._exit(code)
+    os.close(w)
+    last, in_step = time.time(), False
+    while True:
+        ready, _, _ = select.select([r], [], [], 1.0)
+        if ready:
+            chunk = os.read(r, 65536)
+            if chunk == b'':
+                break                       # the worker has exited
+            last, in_step = time.time(), chunk[-1:] == b'B'
+        elif in_step and time.time() - last > STALL:
+            os.kill(pid, 9)
+            os.waitpid(pid, 0)
+            os.close(r)
+            rep.evaluations += 1
+            rep.nontrivial += 1
+            rep.violation({'kind': 'fault', 'clause': 'loader-or-cache-read-makes-no-progress',
+                           'detail': f'no progress for {STALL} s in a step that takes milliseconds (loading / re-reading a cache file of a few kB)'})
+            if not rep.samples:
+                rep.sample({'note': 'run ended by the watchdog'})
+            return
+    os.close(r)
+    _, status = os.waitpid(pid, 0)
+    raise SystemExit(os.waitstatus_to_exitcode(status) if os.WIFEXITED(status) else 2)
+
+
+def _run(rep):
     quick = rep.tier == 'quick'
     core.gemdat_src_first()
     from gemdat import Trajectory
